@@ -191,7 +191,13 @@ def run_C07(tier, seed, replay=None, procs=16):
     if not full:
         objs = ["makespan", "flowtime", "start_latest", "max_expr", "min_bounded", "max_bounded", "cost", "two_min", "two_max", "two_min_w0",
                 "max_buffer", "min_buffer"]
-    ps = number([replay["problem"]]) if replay else number(FS.pool(objs, shapes=("plain", "optional", "select", "variable", "buffer", "single")))
+    if replay:
+        ps = number([replay["problem"]])
+    else:
+        # the objective pool, plus cross-feature problems carrying one random objective (families/mixed.py)
+        from families import mixed as F_mixed
+        ps = number(FS.pool(objs, shapes=("plain", "optional", "select", "variable", "buffer", "single"))
+                    + F_mixed.fam_mixed(tier, seed, "objective", n=60 if full else 14))
     V, st_enum = SE.prepare(ps)
     cases = []
     for p in ps:
